@@ -218,6 +218,9 @@ def renderChar (c : Int) : String :=
 /-- The field a chain shows: first entry of the innermost non-empty level (`none` = no field). -/
 def chainField (chain : List (List Nat)) : Option Nat := (chain.find? (!·.isEmpty)).bind List.head?
 
+/-- `a` if present, else `b` (a direct field overrides an inherited one). -/
+def firstSome (a b : Option Nat) : Option Nat := match a with | some x => some x | none => b
+
 def VInfo.shownField (i : VInfo) : Nat :=
   if i.extra then 0 else (chainField i.fields).getD 0
 
